@@ -148,6 +148,24 @@ def fd_refusals_11(mode: EnumOf(TransmissionMode), crc: EnumOf(CrcFlag), segctrl
     refusal_case(mode, crc, LARGE, segctrl, we, ws, src, seq, dst, True, state, meta, offset, data)
 
 
+@obligation(["C07"], "FileDataPdu.pack/metadata-length-boundary", verifies=[M + "FileDataPdu.pack", M + "FileDataPdu.__init__"])
+def fd_meta_boundary(mode: EnumOf(TransmissionMode), crc: EnumOf(CrcFlag), large: EnumOf(LargeFileFlag), state: STATE,
+                     mlen: Choice(0, 1, 62, 63, 64, 65, 100), pad: BytesLen(100, 100), offset: IntRange(0, 4294967295),
+                     data: BytesLen(0, 8)):
+    """the 63-octet limit of the segment metadata with CONCRETE lengths around it (the general refusal clauses quantify over all
+    lengths; a counter-model there needs a 64-element sequence, which is slow to find)"""
+    meta = pad[0:mlen]
+    conf = mk_conf(1, 2, 3, 4, 5, mode, crc, large, Direction.TOWARDS_RECEIVER, SegmentationControl.NO_RECORD_BOUNDARIES_PRESERVATION)
+    pdu = FileDataPdu(conf, FileDataParams(data, offset, mk_meta(True, state, meta)))
+    o = outcome(pdu.pack)
+    ensures("refused-iff-over-63", o.raised(ValueError) == (mlen > 63))
+    ensures("raises-only", o.ok or o.raised(ValueError))
+    if o.ok:
+        r = o.value
+        ensures("metadata-octet", r[4 + 2 * 1 + 2] == state * 64 + mlen)
+        ensures("layout", r == file_data_octets(mode, crc, large, 0, 1, 2, 3, 4, 5, True, state, meta, offset, data))
+
+
 @obligation(["C07"], "FileDataPdu.__init__/data-field-over-65535", verifies=[M + "FileDataPdu.__init__"])
 def fd_too_large(crc: EnumOf(CrcFlag), large: EnumOf(LargeFileFlag), has_meta: Bool, state: STATE, meta: BytesLen(0, 63), data: Bytes):
     """the 16-bit data field length cannot cover more than 65535 octets: such a PDU must not be built"""
